@@ -27,6 +27,11 @@ def split_mux(predicate):
                         observer.on_next(rs.OnCompletedMux((i.key[0], i.key), i.store))
                         observer.on_next(rs.OnCreateMux((i.key[0], i.key), i.store))
 
+                    else:
+                        # the next item is compared with this one, not
+                        # with the first item of the segment
+                        i.store.set_state(state, i.key, new_predicate)
+
                     observer.on_next(i._replace(key=(i.key[0], i.key)))
 
                 elif type(i) is rs.OnCreateMux:
